@@ -28,7 +28,8 @@ use watchexec::{
 	sources::fs::{verif as fsverif, Watcher},
 	Config, WatchedPath, Watchexec,
 };
-use watchexec_events::{Event, Priority};
+use watchexec_events::{Event, Priority, Tag};
+use watchexec_signals::Signal;
 
 #[derive(Clone, Debug, Deserialize)]
 struct Op {
@@ -70,7 +71,47 @@ fn class_of(name: &str) -> &'static str {
 	}
 }
 
+/// signals are judged by their name: USR2 is rejected, HUP makes the filter fail, anything else passes
+fn signal_class(name: &str) -> &'static str {
+	match name {
+		"USR2" => "reject",
+		"HUP" => "error",
+		_ => "pass",
+	}
+}
+
+fn signal_name(s: Signal) -> &'static str {
+	match s {
+		Signal::Hangup => "HUP",
+		Signal::Interrupt => "INT",
+		Signal::Quit => "QUIT",
+		Signal::Terminate => "TERM",
+		Signal::User1 => "USR1",
+		Signal::User2 => "USR2",
+		_ => "OTHER",
+	}
+}
+
+/// what an event is about, as path-like names: filesystem paths relative to the scenario directory,
+/// `signal/<NAME>`, `keyboard/eof`
+fn subjects(event: &Event, base: &Path) -> Vec<String> {
+	let mut out: Vec<String> = event.paths().map(|(p, _)| rel(base, p)).collect();
+	for t in &event.tags {
+		match t {
+			Tag::Signal(s) => out.push(format!("signal/{}", signal_name(*s))),
+			Tag::Keyboard(_) => out.push("keyboard/eof".into()),
+			_ => {}
+		}
+	}
+	out
+}
+
 fn verdict(event: &Event) -> &'static str {
+	for t in &event.tags {
+		if let Tag::Signal(s) = t {
+			return signal_class(signal_name(*s));
+		}
+	}
 	let mut v = "pass";
 	for p in event.paths().map(|(p, _)| p) {
 		match p.file_name().and_then(|n| n.to_str()).map_or("pass", class_of) {
@@ -85,14 +126,15 @@ fn verdict(event: &Event) -> &'static str {
 #[derive(Debug)]
 struct NameFilterer {
 	rec: Recorder,
-	seen: Arc<Mutex<HashMap<i64, (String, Vec<PathBuf>)>>>,
+	base: PathBuf,
+	seen: Arc<Mutex<HashMap<i64, (String, Vec<String>)>>>,
 }
 
 impl Filterer for NameFilterer {
 	fn check_event(&self, event: &Event, _priority: Priority) -> Result<bool, RuntimeError> {
 		let id = event_id(event);
 		let v = verdict(event);
-		self.seen.lock().unwrap().insert(id, (v.into(), event.paths().map(|(p, _)| p.to_owned()).collect()));
+		self.seen.lock().unwrap().insert(id, (v.into(), subjects(event, &self.base)));
 		self.rec.rec(Ev::new("filter").id(id).a(v));
 		match v {
 			"pass" => Ok(true),
@@ -107,6 +149,13 @@ fn comps(path: &str) -> Vec<serde_json::Value> {
 }
 
 fn class_code(path: &str) -> i64 {
+	if let Some(name) = path.strip_prefix("signal/") {
+		return match signal_class(name) {
+			"reject" => 1,
+			"error" => 2,
+			_ => 0,
+		};
+	}
 	match class_of(path.rsplit('/').next().unwrap_or("")) {
 		"reject" => 1,
 		"error" => 2,
@@ -119,6 +168,16 @@ fn rel(base: &Path, p: &Path) -> String {
 }
 
 async fn run_script(s: Script) -> (Vec<Ev>, Vec<Ev>) {
+	// signals sent to this very process must find a handler whatever the signal source has done so far
+	let mut _guards = Vec::new();
+	if s.ops.iter().any(|o| o.op == "signal") {
+		use tokio::signal::unix::{signal, SignalKind};
+		for k in [SignalKind::user_defined1(), SignalKind::user_defined2(), SignalKind::hangup(), SignalKind::interrupt(),
+			SignalKind::terminate(), SignalKind::quit()]
+		{
+			_guards.push(signal(k).expect("signal listener"));
+		}
+	}
 	let tmp = tempfile::tempdir().expect("tempdir");
 	let base = tmp.path().canonicalize().expect("canonical tempdir");
 	std::fs::create_dir_all(base.join("root")).unwrap();
@@ -156,7 +215,7 @@ async fn run_script(s: Script) -> (Vec<Ev>, Vec<Ev>) {
 	let seen = Arc::new(Mutex::new(HashMap::new()));
 	let config = Config::default();
 	config.throttle(Duration::from_millis(s.throttle));
-	config.filterer(NameFilterer { rec: rec.clone(), seen: seen.clone() });
+	config.filterer(NameFilterer { rec: rec.clone(), base: base.clone(), seen: seen.clone() });
 	config.file_watcher(if s.watcher == "poll" { Watcher::Poll(Duration::from_millis(40)) } else { Watcher::Native });
 	config.pathset([WatchedPath::recursive(base.join("root"))]);
 	let errors: Arc<Mutex<Vec<String>>> = Arc::new(Mutex::new(Vec::new()));
@@ -181,8 +240,13 @@ async fn run_script(s: Script) -> (Vec<Ev>, Vec<Ev>) {
 	{
 		let rec = rec.clone();
 		let batches = batches.clone();
+		let (seen, base) = (seen.clone(), base.clone());
 		config.on_action(move |action| {
 			let ids: Vec<i64> = action.events.iter().map(event_id).collect();
+			for e in action.events.iter() {
+				// urgent events by-pass the filter: what they are about is learnt here
+				seen.lock().unwrap().entry(event_id(e)).or_insert_with(|| ("urgent".into(), subjects(e, &base)));
+			}
 			let mut ev = Ev::new("handler_in");
 			ev.pending = Some(ids.clone());
 			rec.rec(ev);
@@ -207,6 +271,24 @@ async fn run_script(s: Script) -> (Vec<Ev>, Vec<Ev>) {
 			"remove" => std::fs::remove_file(&p).or_else(|_| std::fs::remove_dir(&p)).is_ok(),
 			"rename" => std::fs::rename(&p, base.join(&op.to)).is_ok(),
 			"mkdir" => std::fs::create_dir(&p).is_ok(),
+			// a real signal to this very process (the signal source listens for it)
+			"signal" => {
+				let signo = match op.path.rsplit('/').next().unwrap_or("") {
+					"USR1" => libc::SIGUSR1,
+					"USR2" => libc::SIGUSR2,
+					"HUP" => libc::SIGHUP,
+					"INT" => libc::SIGINT,
+					"TERM" => libc::SIGTERM,
+					_ => libc::SIGQUIT,
+				};
+				unsafe { libc::kill(libc::getpid(), signo) == 0 }
+			}
+			// standard input is at its end (the driver is run with /dev/null): switching the keyboard
+			// source on makes it report that
+			"keyboard" => {
+				wx.config.keyboard_events(true);
+				true
+			}
 			_ => false,
 		};
 		let mut e = Ev::new("op").n(i as i64 + 1).a(op.op.clone()).b(op.path.clone()).x(i64::from(done)).w(class_code(&op.path));
@@ -248,8 +330,16 @@ async fn run_script(s: Script) -> (Vec<Ev>, Vec<Ev>) {
 	reset.kids = Some(
 		made.iter()
 			.map(|id| {
-				let v = seen.get(id).map_or("pass", |(v, _)| v.as_str());
-				serde_json::json!({"id": id, "prio": 1, "verdict": v, "empty": false, "hold": 0,
+				let (v, subj) = seen.get(id).cloned().unwrap_or_else(|| ("pass".into(), Vec::new()));
+				let prio = if subj.iter().any(|s| s == "signal/INT" || s == "signal/TERM") {
+					3
+				} else if subj.iter().any(|s| s.starts_with("signal/")) {
+					2
+				} else {
+					1
+				};
+				let v = if v == "urgent" { "pass" } else { v.as_str() };
+				serde_json::json!({"id": id, "prio": prio, "verdict": v, "empty": false, "hold": 0,
 					"act": "none", "arg": 0, "onerr": "ignore"})
 			})
 			.collect(),
@@ -262,17 +352,10 @@ async fn run_script(s: Script) -> (Vec<Ev>, Vec<Ev>) {
 
 	// the source-level trace
 	for id in &made {
-		let (v, paths) = seen.get(id).cloned().unwrap_or_else(|| ("unseen".into(), Vec::new()));
-		let mut e = Ev::new("fsev").id(*id).a(v);
-		e.kids = Some(
-			paths
-				.iter()
-				.map(|p| {
-					let r = rel(&base, p);
-					serde_json::json!({"p": comps(&r), "c": class_code(&r)})
-				})
-				.collect(),
-		);
+		let (v, subj) = seen.get(id).cloned().unwrap_or_else(|| ("unseen".into(), Vec::new()));
+		// (an urgent event is not shown to the filter: it is delivered whatever its name)
+		let mut e = Ev::new("fsev").id(*id).a(if v == "urgent" { "pass".to_string() } else { v });
+		e.kids = Some(subj.iter().map(|r| serde_json::json!({"p": comps(r), "c": class_code(r)})).collect());
 		src.push(e);
 	}
 	for b in batches.lock().unwrap().iter() {
